@@ -117,6 +117,11 @@ pub fn judge(scn: &Scenario, res: &ExecResult, _base: Option<&ExecResult>) -> Ve
         // (one step per 12 rounds); lockstep and window-1 sessions legitimately settle into a
         // slower phase pattern after a fault (observed: 6-7 frames per 20 rounds instead of 10),
         // so equality with the fault-free rate is not demanded
+        // a spectator whose 60-frame ring was overrun during the outage reports
+        // SpectatorTooFarBehind from then on: documented behaviour (C06), not a silent wedge
+        if nt.is_spec && nt.calls.last().map(|c| c.res == crate::world::R_TOO_FAR_BEHIND && c.behind > 60).unwrap_or(false) {
+            continue;
+        }
         if 3 * r < want || (want > 0 && r <= 0) {
             let last = nt.calls.last().unwrap();
             out.push(v(
